@@ -152,6 +152,10 @@ class SessionModel:
             return ("value", 1, "")
         if op == "forvarfail":
             return ("error", "ERROR", "")
+        if op in ("assignexit", "defexit"):
+            # an exit statement on the right-hand side: the call fails (no
+            # loop around it) and binds nothing
+            return ("error", "ERROR", "")
         if op == "require":
             m = cmd[1]
             if m == "good":
@@ -238,6 +242,12 @@ def source(cmd, who=0):
     if op == "forvarfail":
         k = cmd[1]
         return f"for v{k} in [7, 8] do 1 / 0 end"
+    if op == "assignexit":
+        k = cmd[1]
+        return f"def v{k} = 3; v{k} = do {cmd[2]} end" if cmd[3] else \
+            f"v{k} = if TRUE then {cmd[2]}"
+    if op == "defexit":
+        return f"def v{cmd[1]} = do {cmd[2]} end"
     if op == "require":
         return {
             "good": "require goodm; goodm->bump()",
@@ -357,10 +367,11 @@ def prop(case):
 # --------------------------------------------------------------------- parts
 
 CORE = [("def", 1, 5), ("read", 1), ("partial", 1, 7, 2), ("syntax",),
-        ("forvar", 1),
+        ("forvar", 1), ("defexit", 1, "break"),
         ("require", "good"), ("require", "broken"), ("require", "cycle"),
         ("require", "missing")]
-FAILING = {"partial", "syntax", "loop", "forvarfail"}
+FAILING = {"partial", "syntax", "loop", "forvarfail", "assignexit",
+           "defexit"}
 
 
 def nontrivial(history):
@@ -370,7 +381,7 @@ def nontrivial(history):
         whos.add(who)
         key = None
         if cmd[0] in ("def", "assign", "read", "call", "partial", "forvar",
-                      "forvarfail"):
+                      "forvarfail", "assignexit", "defexit"):
             key = ("v", cmd[1])
         elif cmd[0] in ("loop", "readlist"):
             key = ("w", cmd[1])
@@ -438,12 +449,16 @@ def gen_cmd(ch):
     k = ch.weighted([(3, "def"), (2, "assign"), (3, "read"), (1, "deffn"),
                      (2, "call"), (2, "partial"), (1, "syntax"), (2, "loop"),
                      (1, "readlist"), (6, "require"), (2, "forvar"),
-                     (1, "forvarfail")])
+                     (1, "forvarfail"), (1, "assignexit"), (1, "defexit")])
     if k in ("def", "assign"):
         return (k, ch.int(1, 3), ch.int(0, 50))
     if k in ("read", "deffn", "call", "loop", "readlist", "forvar",
              "forvarfail"):
         return (k, ch.int(1, 3))
+    if k == "assignexit":
+        return (k, ch.int(1, 3), ch.choice(["break", "continue"]), False)
+    if k == "defexit":
+        return (k, ch.int(1, 3), ch.choice(["break", "continue"]))
     if k == "partial":
         return (k, ch.int(1, 3), ch.int(0, 50), ch.int(1, 3))
     if k == "syntax":
